@@ -23,13 +23,13 @@ def world():
     return World(zoo.LEGACY, "plain", legacy=True)
 
 
-def gen_cases(chk, nobj, which):
+def gen_cases(chk, nobj, which, classes=None):
     mod, cfg = inst.instance(
         "I_LegacyTrav", "Gen_LegacyTrav",
-        dict(MaxObjs=nobj, MaxTuple=2, GenClasses=set(CLASSES), Origins={0}, PropAtoms="@op:PA", GatherClasses=set(GATHER),
+        dict(MaxObjs=nobj, MaxTuple=2, GenClasses=set(classes or CLASSES), Origins={0}, PropAtoms="@op:PA", GatherClasses=set(GATHER),
              XFields={"child", "items", "elems", "head"}, XClasses={"LLeaf", "LUnary", "ASTNode"}, XIndices={0, 1}, NPath2=6, NPath3=3),
         ops=[inst.prop_atoms_def("PA", {}, {0})],
-        invariants=["EmitTrav" if which == "trav" else "EmitXPath", "ShiftLaw", "XAgree"])
+        invariants=[{"trav": "EmitTrav", "xpath": "EmitXPath", "edits": "EmitEdits"}[which], "ShiftLaw", "XAgree"])
     (chk.wd / "I_LegacyTrav.tla").write_text(mod)
     r = tlc.run(chk.wd, "I_LegacyTrav", cfg, workers=core.NPROC, timeout=3000, seed=chk.seed)
     tlc.require_clean(r, "Gen_LegacyTrav")
@@ -113,6 +113,18 @@ def check_case(W, case) -> list:
             m = x.match(o)
             if m != (n in exp):
                 bad("legacy-xpath-match", f"{text!r}.match({n}) = {m}, expected {n in exp}", {"paths": [pc], "xpaths": {}, "text": text})
+    # calculate_xpath again after an in-place edit (paths were calculated once above: anything cached must be redone)
+    for ed in case.get("edits", []):
+        objs2 = build_tree(W, h, case["root"])
+        root2 = objs2[case["root"]]
+        root2.calculate_xpath()
+        objs2[ed["n"]].replace_with(None)
+        root2.calculate_xpath()
+        for n, path in norm_fn(ed["xpaths"]).items():
+            want = "".join(f"/@{'root' if k == 0 else f}[{max(i, 0)}]{c}" for k, (f, i, c) in enumerate(path))
+            if objs2[n].xpath != want:
+                bad("calculate_xpath-after-edit", f"after {ed['n']}.replace_with(None): {n}: {objs2[n].xpath!r} expected {want!r}",
+                    {"paths": [], "xpaths": {}, "edits": [ed]})
     return out
 
 
@@ -221,7 +233,9 @@ def run(chk: core.Check):
                 "with tuples / lists up to 13 and indices up to 12, validated by Trace_LegacyTrav.tla.")
     n = 3 if quick else 4
     raws = gen_cases(chk, n, "trav") + gen_cases(chk, n, "xpath")
-    chk.bounds = {"MaxObjs_traversal": n, "MaxObjs_xpath": n}
+    # in-place edits below an inner node need one object more (root, inner node, two elements)
+    raws += gen_cases(chk, n + 1, "edits", ["LLeaf", "LUnary", "LMany", "LList"])
+    chk.bounds = {"MaxObjs_traversal": n, "MaxObjs_xpath": n, "MaxObjs_edits": n + 1}
     c = tlc.decode(raws[len(raws) // 3])
     chk.sample({"m": c["m"], "heap": c["h"], "root": c["root"]})
     for viol, cnt, nontriv in core.parallel(_replay, raws, {}, chunk=20):
